@@ -23,6 +23,10 @@ PARTS = {
       S('list+list', 'asan', 'prop=C05', 'kind=list', 'bkind=list', 'two=1', 'maxlen=2', 'nvals=2'),
       S('box-array', 'base', 'prop=C05', 'mode=box', 'kind=array', 'maxlen=3'),
       S('box-list', 'asan', 'prop=C05', 'mode=box', 'kind=list', 'maxlen=3'),
+      # element type whose assign refuses one value: a refused push/append/push_at/set must leave contents, len and ledger alone
+      S('array-picky4', 'base', 'prop=C05', 'kind=array', 'elem=picky', 'maxlen=4'),
+      S('list-picky4', 'base', 'prop=C05', 'kind=list', 'elem=picky', 'maxlen=4'),
+      S('array-picky3-asan', 'asan', 'prop=C05', 'kind=array', 'elem=picky', 'maxlen=3'),
     ],
     'thorough': [
       S('array-probe7', 'base', 'prop=C05', 'kind=array', 'maxlen=7'),
@@ -38,6 +42,10 @@ PARTS = {
       S('box-list', 'base', 'prop=C05', 'mode=box', 'kind=list', 'maxlen=3'),
       S('box-array-asan', 'asan', 'prop=C05', 'mode=box', 'kind=array', 'maxlen=3'),
       S('box-list-asan', 'asan', 'prop=C05', 'mode=box', 'kind=list', 'maxlen=3'),
+      S('array-picky6', 'base', 'prop=C05', 'kind=array', 'elem=picky', 'maxlen=6'),
+      S('list-picky6', 'base', 'prop=C05', 'kind=list', 'elem=picky', 'maxlen=6'),
+      S('array-picky4-asan', 'asan', 'prop=C05', 'kind=array', 'elem=picky', 'maxlen=4'),
+      S('list-picky4-asan', 'asan', 'prop=C05', 'kind=list', 'elem=picky', 'maxlen=4'),
     ],
   },
   # ---- C09: cmp over all pairs/triples of sequences x kinds
@@ -82,6 +90,8 @@ PARTS = {
       S('array5', 'base', 'prop=C12', 'kind=array', 'maxlen=5', cflags=WRAP),
       S('list5', 'base', 'prop=C12', 'kind=list', 'maxlen=5', cflags=WRAP),
       S('tuple5', 'base', 'prop=C12', 'kind=tuple', 'maxlen=5', cflags=WRAP),
+      S('array-picky3', 'base', 'prop=C12', 'kind=array', 'elem=picky', 'maxlen=3'),
+      S('list-picky3', 'base', 'prop=C12', 'kind=list', 'elem=picky', 'maxlen=3'),
       S('array-probe3', 'base', 'prop=C12', 'kind=array', 'elem=probe', 'maxlen=3'),
       S('list-probe3', 'base', 'prop=C12', 'kind=list', 'elem=probe', 'maxlen=3'),
       S('array3-asan', 'asan', 'prop=C12', 'kind=array', 'maxlen=3'),
@@ -92,6 +102,9 @@ PARTS = {
       S('array7', 'base', 'prop=C12', 'kind=array', 'maxlen=7', cflags=WRAP),
       S('list7', 'base', 'prop=C12', 'kind=list', 'maxlen=7', cflags=WRAP),
       S('tuple7', 'base', 'prop=C12', 'kind=tuple', 'maxlen=7', cflags=WRAP),
+      S('array-picky5', 'base', 'prop=C12', 'kind=array', 'elem=picky', 'maxlen=5'),
+      S('list-picky5', 'base', 'prop=C12', 'kind=list', 'elem=picky', 'maxlen=5'),
+      S('array-picky4-asan', 'asan', 'prop=C12', 'kind=array', 'elem=picky', 'maxlen=4'),
       S('array-probe5', 'base', 'prop=C12', 'kind=array', 'elem=probe', 'maxlen=5'),
       S('list-probe5', 'base', 'prop=C12', 'kind=list', 'elem=probe', 'maxlen=5'),
       S('array5-asan', 'asan', 'prop=C12', 'kind=array', 'maxlen=5'),
